@@ -14,7 +14,8 @@
    * features: proto-ipv4, proto-ipv6, socket-mdns on (the default build).
 
    The model is of the code AFTER the fix of D17 (poll_at covers timeout_at; the timeout fires
-   at `timeout <= now`).  Functions carry the Rust name with the prefix dns_.
+   at `timeout <= now`) and AFTER repo 4f2a12a (process follows CNAMEs on a local copy of the
+   name; a pending query is never rewritten by a response).  Functions carry the Rust name with the prefix dns_.
    Panic sources: `self.queries[handle.0]`, `.unwrap()` on a free slot, cancel of a free slot
    (documented panics of the API: Panic in the model); `servers[pq.server_idx]` (guarded);
    set_hop_limit(Some(0)) (documented panic: Panic, state unchanged);
@@ -261,7 +262,8 @@ Fixpoint dns_eq_names (a b : wdns_names) : outcome bool :=
     end
   end.
 
-(* copy_name: dest.truncate(0), then label by label; on error the partial content stays *)
+(* copy_name: dest.truncate(0), then label by label; on error the partial content stays (in the
+   local copy of the walk, which is then dropped) *)
 Fixpoint dns_copy_name_go (cap : Z) (nm : wdns_names) (dest : list Z) : list Z * outcome unit :=
   match nm with
   | NmLabel l r =>
@@ -290,8 +292,9 @@ Definition dns_copy_name (cap : Z) (nm : wdns_names) : list Z * outcome unit :=
 Definition dns_push_addr (cfg : dns_cfg) (addrs : list (list Z)) (a : list Z) : list (list Z) :=
   if Z.of_nat (length addrs) <? c_max_results cfg then addrs ++ [a] else addrs.
 
-(* result of the answer loop: an early `return` (query stays pending, its name possibly
-   retargeted / clobbered) or the end of the loop *)
+(* result of the answer loop: an early `return` (the query stays pending and untouched: the
+   head of the CNAME chain is a local copy `name` of pq.name; the value carried by WReturn is that
+   local at the time of the return and is dropped) or the end of the loop *)
 Inductive dns_walk_res :=
 | WReturn (name : list Z)
 | WDone (name : list Z) (addrs : list (list Z)).
@@ -346,7 +349,7 @@ Definition dns_process_query (cfg : dns_cfg) (pkt : list Z) (pq : dns_pending) :
         do ancount <- wdns_answer_record_count pkt;
         do w <- dns_walk cfg (Z.to_nat ancount) pkt payload1 (pq_name pq) [];
         match w with
-        | WReturn name => Ok (QPending (dns_pq_with_name pq name))
+        | WReturn _ => Ok (QPending pq)        (* the walk works on a local copy of the name *)
         | WDone _ [] => Ok QFailure
         | WDone _ addrs => Ok (QCompleted addrs)
         end
